@@ -61,6 +61,15 @@ CLAIMED = {
         "Trusted: vverif/spec_source.py, bytecode denotation, z3/cvc5. Positions outside the family (external-call arguments, dynamic-array append/pop inside expressions, struct literals) are not covered yet.",
         "DESIGN.md 3/C08",
     ),
+    "C12": (
+        "proof",
+        "contract-based deductive verification, template route: bytecode vs the reference semantics of interface calls with an adversarial callee (success flag, return-data size and bytes universally quantified), z3; raw_call/send/create_* by relational contracts",
+        "Per template (return type none/uint256/int128/bool/address/bytes4/tuple/static array x view/pure/nonpayable/payable x value, gas, skip_contract_check, default_return_value; two calls on a path; state around a call) and configuration, "
+        "for ALL calldata, state and callee behaviours: STATICCALL iff view/pure, target/value/requested gas forwarded, calldata = selector ++ encoded arguments, a failing callee's revert data propagated unchanged, "
+        "no-code target reverts (unless skip_contract_check), return data shorter than the type or out of range reverts, exactly-empty return data yields default_return_value. raw_call, send, raw_revert, create_*: configurations agree for every callee behaviour (relational only).",
+        "Trusted: vverif/spec_source.py:Interp.extcall (from docs/interfaces.rst), bytecode denotation, z3. Dynamic return types and dynamic arguments are outside the reference semantics (covered relationally). The documented truncation behaviour of raw_call/create_* is not specified here.",
+        "DESIGN.md 3/C12",
+    ),
     "C07": (
         "proof",
         "contract-based deductive verification, template route: the real compiler's run-time bytecode for each contract shape and configuration is denoted for all calldata/values and the dispatch contract is discharged by z3; jump-table kernels by bounded run-time contract evaluation",
